@@ -18,9 +18,10 @@ def pil_exporter(image, file_handle, extension="", **kwargs):
     from PIL.Image import EXTENSION
 
     # The extensions are only filled out when save or open are called - which
-    # may not have been called before we reach here. So let's make sure that
-    # pillow is properly initialised.
-    if not EXTENSION:
+    # may not have been called before we reach here, or may have registered
+    # only the plugins needed so far. So let's make sure that pillow knows
+    # about the extension we need.
+    if extension not in EXTENSION:
         from PIL.Image import init, preinit
 
         preinit()
